@@ -237,7 +237,23 @@ class Engine:
                 return self.truth(h.items, st)
             if h.kind == 'obj' and h.cls is not None:
                 for nm in ('__bool__', '__len__'):
-                    if h.cls.find_method(nm):
+                    f = h.cls.find_method(nm)
+                    if f is None:
+                        # `__bool__ = __nonzero__` in the class body (Integer back ends): an alias of a method
+                        _c, node = h.cls.find_attr_node(nm)
+                        if node is not None:
+                            f = h.cls.find_method(node.id) if isinstance(node, ast.Name) else None
+                            if f is None:
+                                raise Unsupported('truth value through class attribute %s' % nm)
+                    if f is not None:
+                        # a pure method with a single outcome (e.g. `return self._value != 0`): its result decides
+                        outs = self.call_function(FuncV(f), [v], {}, st)
+                        if len(outs) == 1 and outs[0][0] == 'val' and outs[0][1] is st:
+                            r = outs[0][2]
+                            if nm == '__len__':
+                                return (r != 0) if isinstance(r, int) else (zint(r) != 0)
+                            if isinstance(r, (bool, SBool)):
+                                return self.truth(r, st)
                         raise Unsupported('truth value through %s' % nm)
             return True
         if isinstance(v, (FuncV, BoundV, ClassV, PyClassV, BuiltinV, ModuleV, ExcV)):
@@ -998,6 +1014,8 @@ class Engine:
             if z3.is_int_value(n):
                 return [mk_int(z3.BV2Int(v.t[i])) for i in range(n.as_long())]
             raise Unsupported('iteration over a byte string of symbolic length')
+        if isinstance(v, self.models.LazyMap):
+            return self.models.consume_map(self, st, v)
         raise Unsupported('iteration over %r' % (v,))
 
     def e_Call(self, e, st, sink):
@@ -1272,6 +1290,33 @@ class Engine:
             dd[(d.lineno, d.col_offset)] = r[0][1]
         fv.def_defaults = dd
         st.frame.env[n.name] = fv
+        return [('fall', st)]
+
+    def s_ClassDef(self, n, st):
+        """a class statement inside a function body (`class InputComps(object): pass`, the `EcLib` namespaces of the curve
+        loaders).  Supported bodies: docstrings, pass, methods that use no closure variable, and `name = <expr>` attributes whose
+        value is evaluated NOW in the enclosing scope and does not live in the heap; anything else is outside the subset."""
+        if n.keywords or n.decorator_list:
+            raise Unsupported('local class with keywords/decorators')
+        ci = loader.ClassInfo(n, st.frame.module)
+        self.counter += 1
+        ci.qualname = '%s.<local#%d>.%s' % (st.frame.module.name, self.counter, n.name)
+        for stmt in n.body:
+            if isinstance(stmt, (ast.Pass, ast.FunctionDef)) or (isinstance(stmt, ast.Expr) and isinstance(stmt.value, ast.Constant)):
+                continue
+            if isinstance(stmt, ast.Assign) and len(stmt.targets) == 1 and isinstance(stmt.targets[0], ast.Name):
+                sink = []
+                r = list(self.ev(stmt.value, st, sink))
+                if len(r) != 1 or sink or r[0][0] is not st:
+                    raise Unsupported('attribute %s of local class %s is not a single value' % (stmt.targets[0].id, n.name))
+                v = r[0][1]
+                if isinstance(v, (Ref, LazyUnion)) or (isinstance(v, BoundV) and isinstance(v.selfv, Ref)) or \
+                        (isinstance(v, tuple) and not _conc(v)):
+                    raise Unsupported('attribute %s of local class %s lives in the heap' % (stmt.targets[0].id, n.name))
+                self.module_cache[(ci.qualname, stmt.targets[0].id)] = v
+                continue
+            raise Unsupported('statement %s in the body of local class %s' % (type(stmt).__name__, n.name))
+        st.frame.env[n.name] = ClassV(ci)
         return [('fall', st)]
 
     def s_Assert(self, n, st):
